@@ -46,14 +46,40 @@ def run(ctx, rep):
     if fx is not None:
         rep.ob('positive-control', 'width-specific-code', len(scan_width(fx)) >= 2, 'the width scan does not fire on the positive-control crate',
                reason='floor')
+    # concrete float types: only the f64 orientation sign (result of signed_area / orient2d), float literals it is compared with, and
+    # the two NextAfter impls.  Decided per local from where its value comes from, not from the name of the function holding it.
     concrete = sorted(n for n, b in f.bodies.items() if not (b.j.get('impl') or {}).get('auto_derived')
-                      and any(re.search(r'\bf(32|64)\b', l['ty']) for l in b.locals))
-    allowed = [n for n in concrete if 'NextAfter' in n or n.endswith('signed_area::signed_area') or 'is_below' in n or n.endswith('::cmp')
-               or n.endswith('compare_segments::compare_segments')]
-    extra = [n for n in concrete if n not in allowed]
+                      and any(re.search(r'^f(32|64)$', l['ty']) for l in b.locals))
+    extra = []
+    for n in concrete:
+        b = f.bodies[n]
+        if 'NextAfter' in n:
+            continue
+        fl = set(i for i, l in enumerate(b.locals) if re.search(r'^f(32|64)$', l['ty']))
+        ok_src = True
+        why = None
+        for _, st in all_statements(b):
+            if st['k'] != 'assign' or st['place']['p'] or st['place']['l'] not in fl:
+                continue
+            rv = st['rv']
+            if rv['k'] == 'use':
+                op = rv['op']
+                if op['k'] == 'const' or (op['k'] in ('copy', 'move') and not op['place']['p'] and op['place']['l'] in fl):
+                    continue
+                if op['k'] in ('copy', 'move') and op['place']['ty'] in ('f32', 'f64'):
+                    continue        # a field / deref of the same concrete type (e.g. a captured sign)
+            ok_src, why = False, 'line %s: %s' % (st['line'], rv['k'])
+        for _, tm in all_terms(b):
+            if tm['k'] == 'call' and not tm['dest']['p'] and tm['dest']['l'] in fl:
+                cn = callee_name(tm)
+                if not (cn.endswith('signed_area::signed_area') or cn.endswith('robust::orient2d') or cn in f.bodies):
+                    ok_src, why = False, 'line %s: result of %s' % (tm['line'], cn)
+        if not ok_src:
+            extra.append('%s (%s)' % (n, why))
     rep.info['bodies naming a concrete float type'] = concrete
     rep.ob('N-generic', 'concrete-float-types-confined', not extra,
-           'bodies %s name f32/f64 directly; only the two NextAfter impls and the consumers of the f64 orientation sign may' % extra, reason='inventory')
+           'a value of a concrete float type is computed in %s; only the f64 orientation sign returned by signed_area / orient2d, the literals '
+           'it is compared with and the two NextAfter impls may name f32/f64' % extra, reason='inventory')
     # N-sibling
     sigs = {}
     for ty in ('f32', 'f64'):
